@@ -309,6 +309,65 @@ def d2_sorted(chk, prog):
     chk.decide(ok, "sorted-on-read", "GenomicArray.sort: stable sort by (sorter_chrom key, start, end)", "skgenome.gary.GenomicArray.sort", s.loc(), detail, detail=detail)
 
 
+def d1_segnames(chk, prog):
+    """parse_seg chromosome renaming: numeric IDs -> names first, then the prefix (documented order; import-seg -c human -p chr)"""
+    fi = prog.fn("skgenome.tabio.seg.parse_seg")
+    tb = Table(chk, "coordinate-offset", "parse_seg: chrom_names x chrom_prefix x from_log10 on a two-sample table", fi.loc(), fi.qn)
+    raw = ["1", "23", "24", "7", "23"]
+    samples = ["A", "A", "A", "B", "B"]
+    names = {"23": "X", "24": "Y", "25": "M"}
+    for use_names, prefix, log10 in itertools.product([False, True], [None, "chr"], [False, True]):
+        W.reset()
+        m = file_model("seg", Term.sym("fs", 1, INF, True), Term.sym("fe", 1, INF, True))
+        st = [Term.sym(f"s{i}", 1, INF, True) for i in range(5)]
+        en = [Term.sym(f"e{i}", 1, INF, True) for i in range(5)]
+        lg = [Term.sym(f"l{i}") for i in range(5)]
+
+        def read_csv(it, src, names=None, **kw):
+            cols = {"sample_id": samples, "chromosome": raw, "start": st, "end": en, "probes": [3] * 5, "log2": lg}
+            df = DF({c: Vec(list(cols[c]), aligned=True) for c in it.iterate(names)}, 5)
+            df.exact = True
+            return df
+        m.ext["pd.read_csv"] = read_csv
+        it = Interp(prog, m)
+        out = tb.guard(lambda: list(it.run(fi.qn, ["x.seg", names if use_names else None, prefix, log10])), f"names={use_names} prefix={prefix} log10={log10}")
+        if out is None:
+            continue
+        want = [(names.get(c, c) if use_names else c) for c in raw]
+        want = [(prefix or "") + c for c in want]
+        got, ok = [], [sid for sid, _ in out] == ["A", "B"]
+        k = 0
+        for sid, df in out:
+            for i in range(df.n):
+                got.append(df.cols["chromosome"].v[i])
+                ok = ok and same(df.cols["start"].v[i], t_sub(st[k], Term.const(1))) and same(df.cols["end"].v[i], en[k])
+                ok = ok and (same(df.cols["log2"].v[i], lg[k]) if not log10 else not same(df.cols["log2"].v[i], lg[k]))
+                ok = ok and "sample_id" not in df.cols and df.cols["gene"].v[i] == "-"
+                k += 1
+        tb.cell(ok and got == want, dict(chrom_names=use_names, prefix=prefix, from_log10=log10, chromosomes=got, want=want))
+    tb.done("parse_seg does not map chromosome IDs to names and then add the prefix (or loses the 1-based shift / sample split)")
+
+
+def d2_order(chk, prog):
+    """sorter_chrom on concrete labels: natural order whatever the case of the chr prefix"""
+    fi = prog.fn("skgenome.chromsort.sorter_chrom")
+    tb = Table(chk, "sorted-on-read", "sorter_chrom keys: 1 < 2 < 10 < 22 < X < Y < M (< longer contig names), any chr-prefix spelling; equal keys across spellings", fi.loc(), fi.qn)
+    order = ["1", "2", "10", "22", "X", "Y", "M", "Un_gl000220"]
+    ref = None
+    for prefix in ("", "chr", "Chr", "CHR"):
+        W.reset()
+        it = Interp(prog)
+        keys = tb.guard(lambda: [it.run(fi.qn, [prefix + c]) for c in order], f"prefix {prefix!r}")
+        if keys is None:
+            continue
+        ok = all(isinstance(k, tuple) and len(k) == 2 and isinstance(k[0], int) and isinstance(k[1], str) for k in keys)
+        ok = ok and all(keys[i] < keys[i + 1] for i in range(len(keys) - 1))
+        if ref is None:
+            ref = keys
+        tb.cell(ok and keys == ref, dict(prefix=prefix, keys=[repr(k) for k in keys], same_as_bare=keys == ref))
+    tb.done("the chromosome sort key does not give the natural order 1, 2, 10, .., X, Y, M for every spelling of the chr prefix")
+
+
 def d3_sniff(chk, prog):
     chk.clause("D3", "auto-detected format names are registry keys; read_auto rewinds")
     chk.rule("sniff-registry", "every string sniff_region_format can return (constants and format_patterns keys) is a key of READERS")
@@ -420,7 +479,9 @@ def run(chk):
               "pysam: record.start is 0-based (POS-1), record.pos is POS, info['END'] is END", "pandas read_csv(names=) yields the named columns unchanged")
     chk.assume("a reader treats every data row alike (row-wise parametricity), so one symbolic row decides the offset for all rows")
     d1_offsets(chk, prog)
+    d1_segnames(chk, prog)
     d2_sorted(chk, prog)
+    d2_order(chk, prog)
     d3_sniff(chk, prog)
     d3b_roundtrip_detection(chk, prog)
     d4_precision(chk, prog)
@@ -434,6 +495,18 @@ MUTANTS = [
     dict(name="interval writer mutates input", file=_T + "picard.py", old='    dframe = dframe.copy()\n    dframe["start"] += 1\n    if "gene" not in dframe:', new='    dframe["start"] += 1\n    if "gene" not in dframe:', mention="writer-input:interval"),
     dict(name="picard hs writer shifts end", file=_T + "picard.py", old='("end", dframe["end"]),', new='("end", dframe["end"] + 1),', mention="writer:picardhs"),
     dict(name="gff reader forgets -1", file=_T + "gff.py", old="assign(start=dframe.start - 1,", new="assign(start=dframe.start,", mention="reader:gff"),
+    dict(name="seeded C08c: seg prefix added before the ID -> name mapping", file=_T + "seg.py", old="""    if chrom_names:
+        dframe["chromosome"] = dframe["chromosome"].replace(chrom_names)
+    if chrom_prefix:
+        dframe["chromosome"] = dframe["chromosome"].apply(lambda c: chrom_prefix + c)
+""", new="""    if chrom_prefix:
+        dframe["chromosome"] = dframe["chromosome"].apply(lambda c: chrom_prefix + c)
+    if chrom_names:
+        dframe["chromosome"] = dframe["chromosome"].replace(chrom_names)
+"""),
+    dict(name="seeded C08d: chr prefix stripped case-sensitively", file="skgenome/chromsort.py", old='chrom = label[3:] if label.lower().startswith("chr") else label', new='chrom = label.removeprefix("chr")'),
+    dict(name="sort key: Y before X", file="skgenome/chromsort.py", old='        key = (1000, chrom)', new='        key = (1000, "A" if chrom == "Y" else chrom)'),
+    dict(name="twin: prefix stripped through a slice of the lowered label", expect="silent", file="skgenome/chromsort.py", old='chrom = label[3:] if label.lower().startswith("chr") else label', new='chrom = label[3:] if label[:3].lower() == "chr" else label'),
     dict(name="seg reader forgets -1", file=_T + "seg.py", old='    dframe["start"] -= 1\n', new="", mention="reader:seg"),
     dict(name="seg writer forgets +1", file=_T + "seg.py", old="start=dframe.start + 1)", new="start=dframe.start)", mention="writer:seg"),
     dict(name="from_label forgets -1", file="skgenome/rangelabel.py", old="start = int(start) - 1 if start else None", new="start = int(start) if start else None", mention="reader:text"),
